@@ -15,6 +15,7 @@ RULE = (
     "override if it attaches one, else the caller's): the recorded context_args and arg hash of every nested invocation equal the model; under the second root context exactly the calls whose "
     "effective (function, argument, context) is new run, the others are served; no body ever receives a context key as a parameter; with further calls prevented every nested memento call "
     "raises RuntimeError and no nested body runs. Non-trivial = an override below an inherited context, or two root contexts sharing a subtree; distinct by (tree, contexts)."
+    " Round 5: while t0 is suspended at a pause point under context arguments (second variant: with further calls prevented), another thread makes an unrelated top-level call without context: it must succeed, be stored without context arguments and not under the suspended caller's context."
 )
 ASSUMPTIONS = [
     "context values are strings/ints; the empty dict override means 'no context arguments below this edge'",
@@ -22,7 +23,7 @@ ASSUMPTIONS = [
 ]
 MANIFEST = {
     "level": "exploration",
-    "technique": "property-based testing with Hypothesis: generated call trees with context overrides checked against an executable inheritance model and the execution trace",
+    "technique": "property-based testing with Hypothesis: generated call trees with context overrides checked against an executable inheritance model and the execution trace; an unrelated call from a second thread at a harness-chosen pause point",
     "text": "Each generated tree is executed under two root contexts and with further calls prevented; recorded context arguments, argument hashes, hit/miss behaviour and received parameters are compared with a small reference model of context inheritance.",
     "note": "Trusts the inheritance model in checks/c16.py and the harness trace.",
 }
